@@ -101,13 +101,13 @@ PROPS = {
                         variants=1),
                    dict(consts=C(NSet={2, 5, 9, 14}, Heights={1, 2, 3}, NrowSet={1, 2, 3, 5, 9, 17}, Strategies=ALL_STRAT, LevelSet={1, 2},
                                  NewPageSet=NP, PbRowSet=PR, HdrSet={"default", "none", "explicit"}, FootSet=FS3, SrcSet={"none", "para"},
-                                 PlaceSet=PL3, NDataSet={1, 2, 3}, GPosSet={"first", "middle", "last"}), simulate=450, variants=3)],
+                                 PlaceSet=PL3, NDataSet={1, 2, 3}, GPosSet={"first", "middle", "last", "split"}), simulate=450, variants=3)],
             thorough=[dict(consts=C(NSet={0, 1, 2, 3, 4}, Heights={1, 2}, NrowSet={2, 3, 5}, Strategies=ALL_STRAT, LevelSet={1, 2}, NewPageSet=NP,
                                     PbRowSet=PR, HdrSet={"default"}, FootSet={"none"}), variants=1),
                       dict(consts=C(NSet={2, 5, 9, 14, 25, 40, 60}, Heights={1, 2, 3}, NrowSet={1, 2, 3, 5, 9, 17, 30, 50}, Strategies=ALL_STRAT,
                                     LevelSet={1, 2, 3}, NewPageSet=NP, PbRowSet=PR, HdrSet={"default", "none", "explicit", "explicit2"},
                                     FootSet=FS3, SrcSet=FS3, PlaceSet=PL3, NDataSet={1, 2, 3, 5},
-                                    GPosSet={"first", "middle", "last"}), simulate=7000, variants=3)]),
+                                    GPosSet={"first", "middle", "last", "split"}), simulate=7000, variants=3)]),
         opts=_o_c02,
         nontrivial=lambda c, pred: c["n"] >= 1,
     ),
@@ -135,8 +135,9 @@ PROPS = {
         nontrivial=lambda c, pred: pred is not None and pred and pred[-1]["p"] >= 2,
     ),
     "C04": dict(
+        # "always when required" for capacity is the row budget: judged here modulo the recorded C03 findings
         judge=["C04_NonEmpty", "C04_Contiguous", "C04_Forced", "C04_OnlyWhenRequired", "C04_OnlyWhenRequiredModuloKnown",
-               "C04_NoMix", "C04_PrefixStable"],
+               "C04_NoMix", "C04_PrefixStable", "C03_BudgetModuloKnown"],
         known={"C04_OnlyWhenRequired": "C04_OnlyWhenRequiredModuloKnown"},
         model=dict(quick=C(NSet={0, 4}, Heights={1, 2}, NrowSet={3, 5}, Strategies=S3, LevelSet={1, 2}, HdrSet={"explicit"},
                            FootSet={"none"}, NewPageSet=NP, PbRowSet=PR),
@@ -147,19 +148,20 @@ PROPS = {
                    props=["PagesMonotone"]),
         gen=dict(
             quick=[dict(consts=C(NSet={4}, Heights={1, 2}, NrowSet={3, 4, 6}, Strategies=S3, LevelSet={1}, HdrSet={"none", "explicit"},
-                                 FootSet={"none"}, NewPageSet=NP, PbRowSet=PR), prefixes=0.25),
+                                 FootSet={"none"}, NewPageSet=NP, PbRowSet=PR, DivSet=NP), prefixes=0.25),
                    dict(consts=C(NSet={5, 6, 7, 11}, Heights={1, 2, 3}, NrowSet={2, 3, 6, 10, 17, 30}, Strategies=ALL_STRAT, LevelSet={1, 2, 3},
                                  HdrSet={"none", "default", "explicit", "explicit2"}, FootSet=FS3, SrcSet=FS3, NewPageSet=NP, PbRowSet=PR,
-                                 PlaceSet=PL3, PbHdrSet=NP), simulate=700, prefixes=0.3)],
+                                 PlaceSet=PL3, PbHdrSet=NP, DivSet=NP), simulate=700, prefixes=0.3)],
             thorough=[dict(consts=C(NSet={2, 3, 4}, Heights={1, 2, 3}, NrowSet={2, 3, 4, 6}, Strategies=S3, LevelSet={1, 2}, HdrSet={"none", "explicit"},
                                     FootSet={"none"}, NewPageSet=NP, PbRowSet=PR), prefixes=0.1),
                       dict(consts=C(NSet={6, 7, 11, 19, 30}, Heights={1, 2, 3}, NrowSet={2, 3, 6, 10, 17, 30}, Strategies=ALL_STRAT, LevelSet={1, 2, 3},
                                     HdrSet={"none", "default", "explicit", "explicit2"}, FootSet=FS3, SrcSet=FS3, NewPageSet=NP, PbRowSet=PR,
-                                    PlaceSet=PL3, PbHdrSet=NP), simulate=9000, prefixes=0.2)]),
+                                    PlaceSet=PL3, PbHdrSet=NP, DivSet=NP), simulate=9000, prefixes=0.2)]),
         nontrivial=lambda c, pred: pred is not None and pred and pred[-1]["p"] >= 2,
     ),
     "C05": dict(
-        judge=["C05_Heads", "C05_NotStranded", "C05_NoHeadsWhenColumn", "C05_Subline", "C05_DividerKeepsRow"], known={},
+        # a divider must not cost page capacity either: early breaks are judged modulo the recorded C04 findings
+        judge=["C05_Heads", "C05_NotStranded", "C05_NoHeadsWhenColumn", "C05_Subline", "C05_DividerKeepsRow", "C04_OnlyWhenRequiredModuloKnown"], known={},
         model=dict(quick=C(NSet={0, 4}, Heights={1}, NrowSet={3, 4}, Strategies={"pageby", "subline", "subpb"}, LevelSet={1, 2},
                            HdrSet={"none", "explicit"}, NewPageSet=NP, PbRowSet=PR, DivSet=NP),
                    thorough=C(NSet={0, 3, 5}, Heights={1}, NrowSet={3, 4, 6}, Strategies={"pageby", "subline", "subpb"}, LevelSet={1, 2},
@@ -227,11 +229,11 @@ PROPS = {
         gen=dict(
             quick=[dict(consts=C(NSet={3}, Heights={1}, NrowSet={3, 30}, Strategies=ALL_STRAT, LevelSet={1, 2}, NewPageSet=NP, PbRowSet=PR,
                                  HdrSet={"none", "default", "explicit", "explicit2"}, FootSet={"none", "table"}, SrcSet={"none", "table"},
-                                 NDataSet={1, 2, 3, 4, 6}, GPosSet={"first", "middle", "last"}, RelWSet={"equal", "asc", "mixed", "tenths"},
+                                 NDataSet={1, 2, 3, 4, 6}, GPosSet={"first", "middle", "last", "split"}, RelWSet={"equal", "asc", "mixed", "tenths"},
                                  HdrWSet=NP, PaperSet={"letter", "landscape", "custom"}), simulate=1500)],
             thorough=[dict(consts=C(NSet={3, 9}, Heights={1}, NrowSet={3, 30}, Strategies=ALL_STRAT, LevelSet={1, 2, 3}, NewPageSet=NP, PbRowSet=PR,
                                     HdrSet={"none", "default", "explicit", "explicit2"}, FootSet={"none", "table"}, SrcSet={"none", "table"},
-                                    NDataSet={1, 2, 3, 4, 6, 9, 12}, GPosSet={"first", "middle", "last"},
+                                    NDataSet={1, 2, 3, 4, 6, 9, 12}, GPosSet={"first", "middle", "last", "split"},
                                     RelWSet={"equal", "asc", "mixed", "tenths"}, HdrWSet=NP,
                                     PaperSet={"letter", "landscape", "a4", "custom"}), simulate=15000)]),
         nontrivial=lambda c, pred: c.get("ndata", 2) + (c["nlev"] if pipeline.has_pb(c) else 0) >= 2,
